@@ -10,7 +10,7 @@ ALL_SEQ_OPS = {"ctopic", "gtopic", "dtopic", "ltopics", "ltsubs", "csub", "gsub"
 
 # property -> configuration.  seq: (profile, quick cases, thorough cases, max history length)
 PROPS = {
-    "C01": dict(module="Deltio.Props.C01", p1=True, no_oracle={"namerace"}, conc=[("mix", 120, 5000), ("cancel", 60, 2000), ("namerace", 200, 5000)], trace_kinds={"post", "publish", "publish.fanout", "pull", "ack", "modify", "expire", "end"}, seq=[("general", 150, 6000, 40), ("data", 150, 6000, 50)], pure=[],
+    "C01": dict(module="Deltio.Props.C01", p1=True, p6=True, no_oracle={"namerace"}, conc=[("mix", 120, 5000), ("cancel", 60, 2000), ("namerace", 200, 5000)], trace_kinds={"post", "publish", "publish.fanout", "pull", "ack", "modify", "expire", "end"}, seq=[("general", 150, 6000, 40), ("data", 150, 6000, 50)], pure=[],
                 relevant={"pub", "pull", "sread", "stats", "sopen"}),
     "C02": dict(module="Deltio.Props.C02", conc=[("mix", 120, 5000)], trace_kinds={"ack"}, seq=[("data", 250, 10000, 50)], pure=["tracker", "ackids"],
                 relevant={"ack", "ssend", "pull", "sread", "stats"}),
@@ -20,7 +20,7 @@ PROPS = {
                 relevant={"pull", "sread", "stats", "adv", "clock", "csub"}),
     "C05": dict(module="Deltio.Props.C05", conc=[("mix", 60, 3000)], trace_kinds={"modify"}, seq=[("deadlines", 300, 12000, 50)], pure=["ext", "tracker"],
                 relevant={"mod", "ssend", "pull", "sread", "stats"}),
-    "C08": dict(module="Deltio.Props.C08", conc=[("mix", 120, 5000), ("pubdel", 150, 4000)], trace_kinds={"publish", "publish.ids", "post", "post.order", "pull"}, seq=[("data", 200, 8000, 50), ("general", 100, 4000, 40)], pure=[],
+    "C08": dict(module="Deltio.Props.C08", p6=True, conc=[("mix", 120, 5000), ("pubdel", 150, 4000)], trace_kinds={"publish", "publish.ids", "post", "post.order", "pull"}, seq=[("data", 200, 8000, 50), ("general", 100, 4000, 40)], pure=[],
                 relevant={"pub", "pull", "sread"}),
     "C09": dict(module="Deltio.Props.C09", push=True, conc=[("mix", 60, 3000), ("pubdel", 200, 5000)], trace_kinds={"publish", "publish.ids", "pull"}, seq=[("general", 200, 8000, 40), ("data", 100, 4000, 50)], pure=[],
                 relevant={"pub", "pull", "sread"}),
@@ -363,6 +363,21 @@ class Check:
                     self.p1_fail = getattr(self, "p1_fail", 0) + 1
                     self.disagree.append(dict(mode="trace", stream="conc/" + profile + "/p1", ops=[tl], impl=[tl], model=[v], first_diff=0))
             self.p1_events = getattr(self, "p1_events", 0) + sum(1 for tl in trace if (" attach " in tl or " remove " in tl or " new " in tl or "delete." in tl))
+        if self.cfg.get("p6"):
+            # slice P6: per topic, publish turns, post enqueues, replies and post turns must be a run of
+            # the fan-out protocol proved in Deltio/Proto/Fanout.lean (C01_schedules, C08_posts_in_order)
+            pv, _, _ = run_model("p6", "\n".join(trace) + "\n")
+            seen = set()
+            for tl, v in zip(trace, pv):
+                if v != "ok":
+                    case_no = tl.split()[0] if tl.split() else "?"
+                    if case_no in seen:
+                        continue
+                    seen.add(case_no)
+                    nd += 1
+                    self.p6_fail = getattr(self, "p6_fail", 0) + 1
+                    self.disagree.append(dict(mode="trace", stream="conc/" + profile + "/p6", ops=[tl], impl=[tl], model=[v], first_diff=0))
+            self.p6_events = getattr(self, "p6_events", 0) + sum(1 for tl in trace if (" publish" in tl or " post" in tl))
         i = 0
         for c in cases:
             n = len(c)
@@ -567,6 +582,9 @@ class Check:
                                           model=(d.get("model") or [""])[min(d.get("first_diff", 0), max(len(d.get("model") or [""]) - 1, 0))][:120])
                                      for d in self.disagree[:5]],
         }
+        if self.cfg.get("p6"):
+            cov["slice_p6_refinement"] = {"fan_out_events_validated": getattr(self, "p6_events", 0),
+                                          "cases_not_a_run_of_the_model": getattr(self, "p6_fail", 0)}
         if self.cfg.get("p1"):
             cov["slice_p1_refinement"] = {"life_cycle_events_validated": getattr(self, "p1_events", 0),
                                           "cases_not_a_run_of_the_model": getattr(self, "p1_fail", 0)}
